@@ -13,6 +13,7 @@ No definition here is `partial`: loops are structural or well-founded recursions
 * (c) `expectedWithdrawals` — `capella.GetExpectedWithdrawals` (eth2/beacon/capella/transition.go)
 * (d) `validateIndicesSet`, `validateIndexedNoSig` — `phase0.ValidateIndexedAttestationIndicesSet` / `…NoSignature` (eth2/beacon/phase0/indexed.go)
 * (e) `isSlashableAttestationData` — `phase0.IsSlashableAttestationData` (eth2/beacon/phase0/attester_slashing.go)
+* (h) `attestationTimingOk` — the epoch/slot checks at the head of `ProcessAttestation` (phase0, altair, deneb/attestation.go)
 * (f) `computeForkDataRoot`, `computeDomain`, `computeSigningRoot` — eth2/beacon/common/bls.go, versioning.go, over an abstract hash
 -/
 namespace Zrnt.Beacon.BlockImpl
@@ -166,5 +167,22 @@ def computeSigningRoot (H : Bs → Bs) (msgRoot domain : Bs) : Bs := H (msgRoot 
 /-- the message a signature is verified over, as a function of the four separated inputs -/
 def signedMessage (H : Bs → Bs) (domainType version gvr objRoot : Bs) : Bs :=
   computeSigningRoot H objRoot (computeDomain H domainType version gvr)
+
+/-! ## (h) attestation timing checks — `phase0.ProcessAttestation`, `altair.ProcessAttestation`,
+`deneb.ProcessAttestation` (the checks before the committee look-up), `uint64` additions wrap -/
+
+/-- `true` = none of the four timing errors is returned. `deneb`: EIP-7045 drops the "too old" test. -/
+def attestationTimingOk (SLOTS_PER_EPOCH MIN_ATTESTATION_INCLUSION_DELAY : Nat) (deneb : Bool)
+    (currentSlot dataSlot targetEpoch : Nat) : Bool :=
+  let currentEpoch := currentSlot / SLOTS_PER_EPOCH
+  let previousEpoch := currentEpoch - 1   -- Epoch.Previous(): 0 stays 0 (truncated subtraction)
+  -- Check target
+  if targetEpoch < previousEpoch then false
+  else if targetEpoch > currentEpoch then false
+  -- And if it matches the slot
+  else if targetEpoch ≠ dataSlot / SLOTS_PER_EPOCH then false
+  else if !deneb && !(currentSlot ≤ (dataSlot + SLOTS_PER_EPOCH) % 2 ^ 64) then false          -- too old
+  else if !((dataSlot + MIN_ATTESTATION_INCLUSION_DELAY) % 2 ^ 64 ≤ currentSlot) then false   -- too new
+  else true
 
 end Zrnt.Beacon.BlockImpl
